@@ -86,7 +86,7 @@ impl Space for Placement {
         let other = if dirs.iter().any(|d| d.is_existing()) || host == 1 { "map" } else { "into_existing" };
         src.push_str(&format!("#[{}(U)]\n", other));
         match host {
-            0 => src.push_str("struct S { a: i32, #[ghost({ 5 })] b: i32 }\n"),
+            0 => src.push_str("#[ghosts(g: { 6 })]\nstruct S { a: i32, #[ghost({ 5 })] b: i32 }\n"),
             1 => src.push_str("#[ghosts(Y: { S::A })]\nenum S { A, B(i32), #[ghost({ T::A })] C }\n"),
             _ => src.push_str("struct S { a: i32, #[parent] p: P }\n"),
         }
@@ -245,8 +245,13 @@ impl BCaseSpec {
             let _ = writeln!(o, "#[{t}into_existing({cp}{e}{})]", self.params(2, cp));
         }
         // counterpart-only leaf `u`: from ..update when into has one, else from struct-level ghosts
-        if self.groups[1].1 != 1 && !self.parent {
-            o.push_str("#[ghosts(u: { 77 })]\n");
+        // counterpart-only leaf `g`: always from struct-level ghosts (so `..update` and `#[ghosts]` meet - seed C08-02)
+        if !self.parent {
+            if self.groups[1].1 != 1 {
+                o.push_str("#[ghosts(u: { 77 }, g: { 88 })]\n");
+            } else {
+                o.push_str("#[ghosts(g: { 88 })]\n");
+            }
         }
         o.push_str("struct S {\n");
         // member a uses the vars of every direction that has them
@@ -280,16 +285,16 @@ impl BCaseSpec {
         let mut o = String::from("#![allow(unused, non_camel_case_types, clippy::all)]\nuse crate::common::*;\nuse o2o::traits::*;\n");
         let d = "#[derive(Clone, Debug, PartialEq, Default)]";
         let pf = if self.parent { ", pub w: i32" } else { "" };
-        let _ = writeln!(o, "{d} pub struct T {{ pub a: i32, pub b: i32, pub u: i32{pf} }}\n{d} pub struct Tf {{ pub a: i32, pub b: i32, pub u: i32{pf} }}");
+        let _ = writeln!(o, "{d} pub struct T {{ pub a: i32, pub b: i32, pub u: i32, pub g: i32{pf} }}\n{d} pub struct Tf {{ pub a: i32, pub b: i32, pub u: i32, pub g: i32{pf} }}");
         // (with a bare parent the leaf `u` is simply never mentioned: Into starts from Default, IntoExisting leaves it)
         if self.parent {
             let _ = writeln!(o, "{d}\n#[derive(o2o::o2o)]\n#[from_ref(T)]\n#[into_existing(T)]\n#[try_from_ref(Tf, Er)]\n#[try_into_existing(Tf, Er)]\npub struct P {{ pub w: i32 }}");
         }
         let pw = if self.parent { ", w: 9" } else { "" };
-        let _ = writeln!(o, "fn tbase() -> T {{ T {{ a: 801, b: 802, u: 803{pw} }} }}\nfn tfbase() -> Tf {{ Tf {{ a: 801, b: 802, u: 803{pw} }} }}");
+        let _ = writeln!(o, "fn tbase() -> T {{ T {{ a: 801, b: 802, u: 803, g: 805{pw} }} }}\nfn tfbase() -> Tf {{ Tf {{ a: 801, b: 802, u: 803, g: 805{pw} }} }}");
         let sp = if self.parent { ", p: P { w: 9 }" } else { "" };
         let _ = writeln!(o, "fn sbase() -> S {{ S {{ a: 701, b: 702, c: 703{sp} }} }}\nfn make_s(m: i32) -> S {{ S {{ a: m, b: m + 1, c: m + 2{sp} }} }}");
-        let _ = writeln!(o, "fn make_t(m: i32) -> T {{ T {{ a: m, b: m + 1, u: m + 2{pw} }} }}\nfn make_tf(m: i32) -> Tf {{ Tf {{ a: m, b: m + 1, u: m + 2{pw} }} }}");
+        let _ = writeln!(o, "fn make_t(m: i32) -> T {{ T {{ a: m, b: m + 1, u: m + 2, g: m + 3{pw} }} }}\nfn make_tf(m: i32) -> Tf {{ Tf {{ a: m, b: m + 1, u: m + 2, g: m + 3{pw} }} }}");
         let _ = writeln!(o, "{d}\n#[derive(o2o::o2o)]\n{}", self.item_text());
         let _ = writeln!(o, "pub fn run(r: &mut Rec) {{");
         for (cp, fallible) in [("T", false), ("Tf", true)] {
@@ -300,7 +305,7 @@ impl BCaseSpec {
             // ---- From
             {
                 let (vars, term) = self.groups[0];
-                let tv = format!("{cp} {{ a: 10, b: 20, u: 30{pwv} }}");
+                let tv = format!("{cp} {{ a: 10, b: 20, u: 30, g: 35{pwv} }}");
                 let a = if vars { 10 + 5 + 6 } else { 10 };
                 let (exp, log): (String, Vec<i64>) = match term {
                     2 => (format!("make_s(31)"), if vars { vec![1, 2] } else { vec![] }),
@@ -319,8 +324,8 @@ impl BCaseSpec {
                 let a = if vars { 1 + 5 + 6 } else { 1 };
                 let (exp, log): (String, Vec<i64>) = match term {
                     2 => (format!("make_{}(32)", cp.to_lowercase()), if vars { vec![1, 2] } else { vec![] }),
-                    1 => (format!("{cp} {{ a: {a}, b: 2, u: 803{pwv} }}"), if vars { vec![1, 2, 12] } else { vec![] }),
-                    _ => (format!("{cp} {{ a: {a}, b: 2, u: {}{pwv} }}", if self.parent { 0 } else { 77 }), if vars { vec![1, 2, 12] } else { vec![] }),
+                    1 => (format!("{cp} {{ a: {a}, b: 2, u: 803, g: 88{pwv} }}"), if vars { vec![1, 2, 12] } else { vec![] }),
+                    _ => (format!("{cp} {{ a: {a}, b: 2, u: {}, g: {}{pwv} }}", if self.parent { 0 } else { 77 }, if self.parent { 0 } else { 88 }), if vars { vec![1, 2, 12] } else { vec![] }),
                 };
                 for (lbl, call) in [("owned_into", if fallible { format!("<S as TryInto<{cp}>>::try_into(s.clone())") } else { format!("<S as Into<{cp}>>::into(s.clone())") }), ("ref_into", if fallible { format!("<&S as TryInto<{cp}>>::try_into(&s)") } else { format!("<&S as Into<{cp}>>::into(&s)") })] {
                     let _ = writeln!(o, "  {{ let s = {sv}; take_log(); let got = {call}; r.eq(\"{t}{lbl}/value\", &got, &{}); r.eq(\"{t}{lbl}/vars-log\", &take_log(), &vec!{:?}); }}", wrap(exp.clone()), log);
@@ -332,11 +337,11 @@ impl BCaseSpec {
                 let sv = format!("S {{ a: 1, b: 2, c: 3{spv} }}");
                 let a = if vars { 1 + 5 + 6 } else { 1 };
                 let prew = if self.parent { ", w: 904" } else { "" };
-                let pre = format!("{cp} {{ a: 901, b: 902, u: 903{prew} }}");
+                let pre = format!("{cp} {{ a: 901, b: 902, u: 903, g: 905{prew} }}");
                 let (exp, log): (String, Vec<i64>) = match term {
                     2 => (format!("make_{}(32)", cp.to_lowercase()), if vars { vec![1, 2] } else { vec![] }),
                     // `u` comes from the struct-level ghosts when there are any, else it is not mentioned: untouched
-                    _ => (format!("{cp} {{ a: {a}, b: 2, u: {}{pwv} }}", if self.groups[1].1 != 1 && !self.parent { 77 } else { 903 }), if vars { vec![1, 2, 13] } else { vec![] }),
+                    _ => (format!("{cp} {{ a: {a}, b: 2, u: {}, g: {}{pwv} }}", if self.groups[1].1 != 1 && !self.parent { 77 } else { 903 }, if self.parent { 905 } else { 88 }), if vars { vec![1, 2, 13] } else { vec![] }),
                 };
                 for (lbl, owned) in [("owned_into_existing", true), ("ref_into_existing", false)] {
                     let sty = if owned { "S" } else { "&S" };
